@@ -358,7 +358,7 @@ def run(ctx):
     witness = None
     stale_witness = None
     if binp and drv:
-        ncases = 120 if quick else 1500
+        ncases = 400 if quick else 4000
         cases = [gen_case(rng, i, quick) for i in range(ncases)]
         answers = run_batch(ctx, binp, drv, cases)
         mlines = []
@@ -438,7 +438,7 @@ def run(ctx):
         ctx.cov["stale_res_dft_oracle_failures"] = n_stale_fail
 
         # ---- gate 4: scratch contents must not matter
-        sub = [c for c in cases if "stale" not in c][: (40 if quick else 300)]
+        sub = [c for c in cases if "stale" not in c][: (100 if quick else 600)]
         dirty_ans = run_batch(ctx, binp, drv, sub, dirty=0x412E848000000000)
         n_stale = 0
         clean = {id(c): a for c, a in zip(cases, answers)}
